@@ -167,7 +167,7 @@ func (c *envC) Gen(r *rand.Rand, tier string, emit func(string)) {
 	if tier == "thorough" {
 		cnt = 20000
 	}
-	pieces := []string{"$VT_A", "${VT_B}", "$$", "$", "${", "}", "${}", "$VT_AB", "${VT_1}x", "text", " ", "$VT_EMPTY", "$VT_NONE", "##PC_ENV_ESCAPED##", "#", "$$VT_A", "$$$VT_A", "${VT__}", "$1", "$*", "é", "a=b", "$VT_A$VT_B"}
+	pieces := []string{"$VT_A", "${VT_B}", "$$", "$", "${", "}", "${}", "$VT_AB", "${VT_1}x", "text", " ", "$VT_EMPTY", "$VT_NONE", "##PC_ENV_ESCAPED##", "#", "$$VT_A", "$$$VT_A", "${VT__}", "$1", "$*", "é", "a=b", "$VT_A$VT_B", "$VT_A$$B", "/$VT_B$$", "${VT_A}$$x"}
 	for k := 0; k < cnt; k++ {
 		n := 1 + r.Intn(6)
 		txt := ""
